@@ -166,7 +166,7 @@ func main() {
 	// ---- violations: replay natively ----
 	rp := &Replayer{Dir: *dir, Real: realFiles, ModPath: modPath, Pkgs: pkgs, Names: names}
 	type vkey struct{ h, l, k string }
-	seen := map[vkey]bool{}
+	seen := map[vkey]int{}
 	var newViols, knownHits []Violation
 	for _, hr := range rep.Harnesses {
 		for _, v := range hr.Viols {
@@ -174,10 +174,14 @@ func main() {
 			if v.Label == "panic" {
 				k.l = "panic:" + trunc(v.Msg, 80)
 			}
-			if seen[k] {
+			lim := 6
+			if v.Known != "" {
+				lim = 1
+			}
+			if seen[k] >= lim {
 				continue
 			}
-			seen[k] = true
+			seen[k]++
 			if v.Known != "" {
 				knownHits = append(knownHits, v)
 			} else {
@@ -209,7 +213,18 @@ func main() {
 				fmt.Fprintln(os.Stderr, "replay failed:", err)
 			}
 		}
+		type grp struct{ h, l string }
+		confirmedGrp := map[grp]bool{}
+		unconf := map[grp]string{}
+		var order []grp
 		for i, v := range newViols {
+			g := grp{v.Harness, v.Label}
+			if v.Label == "panic" {
+				g.l = "panic:" + trunc(v.Msg, 80)
+			}
+			if _, seenG := unconf[g]; !seenG && !confirmedGrp[g] {
+				order = append(order, g)
+			}
 			path := filepath.Join(*replayDir, *property, fmt.Sprintf("%s.%s.%d.json", v.Harness, sanitize(v.Label), i))
 			b, _ := json.MarshalIndent(map[string]interface{}{"property": *property, "harness": v.Harness, "label": v.Label, "msg": v.Msg, "model": v.Model, "stack": v.Stack}, "", " ")
 			os.WriteFile(path, b, 0644)
@@ -219,13 +234,25 @@ func main() {
 				ok, detail = results[i].Confirms(v)
 			}
 			if ok {
+				if confirmedGrp[g] {
+					continue // one report per assertion
+				}
+				confirmedGrp[g] = true
+				delete(unconf, g)
 				confirmed++
 				fmt.Printf("VIOLATION property=%s replay=%s\n", *property, path)
 				fmt.Printf("  harness=%s label=%s msg=%s\n  at %s\n  model=%s\n  native: %s\n", v.Harness, v.Label, trunc(v.Msg, 300), v.Stack, compactModel(v.Model), detail)
 				rep.Violations = append(rep.Violations, map[string]interface{}{"harness": v.Harness, "label": v.Label, "msg": v.Msg, "replay": path, "native": detail})
-			} else {
-				fmt.Printf("UNCONFIRMED counterexample harness=%s label=%s msg=%s (model %s): %s\n  at %s\n  model=%s\n", v.Harness, v.Label, trunc(v.Msg, 300), path, detail, v.Stack, compactModel(v.Model))
-				rep.Inconclusive = append(rep.Inconclusive, fmt.Sprintf("unconfirmed counterexample %s/%s: %s", v.Harness, v.Label, detail))
+			} else if !confirmedGrp[g] {
+				if _, had := unconf[g]; !had {
+					unconf[g] = fmt.Sprintf("%s (model %s; at %s; %s)", detail, path, v.Stack, compactModel(v.Model))
+				}
+			}
+		}
+		for _, g := range order {
+			if d, isU := unconf[g]; isU && !confirmedGrp[g] {
+				fmt.Printf("UNCONFIRMED counterexample harness=%s label=%s: %s\n", g.h, g.l, trunc(d, 900))
+				rep.Inconclusive = append(rep.Inconclusive, fmt.Sprintf("unconfirmed counterexample %s/%s: %s", g.h, g.l, trunc(d, 300)))
 			}
 		}
 	}
